@@ -103,6 +103,7 @@ class Program:
         self.extras = []            # module-scope variables WITHOUT a binding: (name, declaration text, access statements, position)
                                     # position = number of resource declarations that precede it
         self.pc_first = False       # declare the push constant before the resources
+        self.tail_decls = []        # module-scope declarations after everything else (a second, unused push constant ...)
         self.uid = 0
 
     def body(self, items):
@@ -137,6 +138,7 @@ class Program:
         out.extend(x[1] for x in self.extras if x[3] >= len(self.globals))
         if self.push_constant and not self.pc_first:
             out.append("var<push_constant> %s: %s;" % self.push_constant)
+        out.extend(self.tail_decls)
         for j, items in enumerate(self.helpers):
             b = self.body(items)
             out.append("fn h%d(x: f32) -> f32 {\n%s  return x;\n}" % (j, b))
@@ -208,6 +210,9 @@ def random_program(rng, n_globals=None, n_helpers=None, depth_bias=False, stages
         p.extras.append((nm, "var<private> %s: f32;" % nm, ["_ = %s;" % nm, "%s = 2.0;" % nm, "let xp_{u} = &%s;" % nm],
                          rng.choice([0, 0, rng.randint(0, ng)])))
     p.pc_first = bool(pc) and rng.random() < 0.4
+    if pc and rng.random() < 0.2:
+        # a second push constant variable, declared after the first and never used: the range is that of the FIRST one
+        p.tail_decls.append("var<push_constant> spare_constants: %s;" % rng.choice(["f32", "vec4<f32>", "mat4x4<f32>"]))
 
     def items(maxcall, n):
         its = []
